@@ -27,8 +27,11 @@
   `fun r => Transc.le r tol`, under `Transc.le = (· ≤ ·)`, `Transc.fabs 0 = 0`, `0 ≤ tol`.
 
   The linear solves are assumed to return (hypothesis `hsolve`, only for the two right-hand sides
-  that occur: `F guess` and `0`); a completeness theorem for `solve_basic`
-  (`det M ≠ 0 → ∀ b of size n, solveBasic J b` returns) discharges it.
+  that occur: `F guess` and `0`).  With `[IsStrictOrderedRing K]` and `hdet : det M ≠ 0`
+  (`Matrix.det (Matrix.of fun (i j : Fin n) => M i.val j.val) ≠ 0`) the completeness theorem
+  `C01.solveBasic_complete` (Ohsl/Props/C01C.lean, not imported here) discharges it:
+    `fun J hJ => ⟨C01.solveBasic_complete hn hJ (by simp) hdet,
+                  C01.solveBasic_complete hn hJ (by simp) hdet⟩`.
 -/
 import Ohsl.Props.C17S
 import Ohsl.Props.C18E
@@ -93,31 +96,31 @@ theorem affineRes_root {M : Nat → Nat → K} {c : Nat → K} {n : Nat} {x : Ar
 /-- a well-formed matrix is determined by its shape and entries -/
 theorem Is_unique {r c : Nat} {e : Nat → Nat → K} {A B : Mat K} (hA : Mat.Is A r c e)
     (hB : Mat.Is B r c e) : A = B := by
+  have wA : A.data.size = r * c := by rw [hA.wf, hA.rows, hA.cols]
+  have wB : B.data.size = r * c := by rw [hB.wf, hB.rows, hB.cols]
+  have hd : A.data = B.data := by
+    apply Array.ext
+    · rw [wA, wB]
+    · intro k hk1 hk2
+      have hk : k < r * c := by rw [← wA]; exact hk1
+      have hc : 0 < c := by
+        rcases Nat.eq_zero_or_pos c with h | h
+        · subst h; simp at hk
+        · exact h
+      have hj : k % c < c := Nat.mod_lt _ hc
+      have hi : k / c < r := by
+        rw [Nat.div_lt_iff_lt_mul hc]; exact hk
+      have hidx : k / c * c + k % c = k := Nat.div_add_mod' k c
+      have eA := hA.entry (k / c) (k % c) hi hj
+      have eB := hB.entry (k / c) (k % c) hi hj
+      simp only [Mat.get, hA.cols, hB.cols, hidx, aget_eq_ok] at eA eB
+      have := eA.trans eB.symm
+      simpa [hk1, hk2] using this
   obtain ⟨dA, rA, cA⟩ := A
   obtain ⟨dB, rB, cB⟩ := B
   have h1 := hA.rows; have h2 := hA.cols; have h3 := hB.rows; have h4 := hB.cols
-  simp only at h1 h2 h3 h4
-  subst h1 h2 h3 h4
-  have wA : dA.size = rA * cA := hA.wf
-  have wB : dB.size = rA * cA := hB.wf
-  congr 1
-  apply Array.ext
-  · rw [wA, wB]
-  · intro k hk1 hk2
-    have hk : k < rA * cA := by rw [← wA]; exact hk1
-    have hc : 0 < cA := by
-      rcases Nat.eq_zero_or_pos cA with h | h
-      · subst h; simp at hk
-      · exact h
-    have hj : k % cA < cA := Nat.mod_lt _ hc
-    have hi : k / cA < rA := by
-      rw [Nat.div_lt_iff_lt_mul hc]; exact hk
-    have hidx : k / cA * cA + k % cA = k := Nat.div_add_mod' k cA
-    have eA := hA.entry (k / cA) (k % cA) hi hj
-    have eB := hB.entry (k / cA) (k % cA) hi hj
-    simp only [Mat.get, hidx, aget_eq_ok] at eA eB
-    have := eA.trans eB.symm
-    simpa [hk1, hk2] using this
+  simp only at h1 h2 h3 h4 hd
+  rw [hd, h1, h2, h3, h4]
 
 /-- subtracting the zero vector -/
 theorem vecSub_zero {n : Nat} {x : Array K} (hx : x.size = n) :
@@ -239,6 +242,313 @@ theorem newton_affine_sys_supplied_gen {R : Type} (M : Nat → Nat → K) (c : N
       exact one k _
     · simp
 
+/-- **Newton on an affine system, finite-difference Jacobian, generic norm / tolerance test**:
+    over a field the finite-difference Jacobian of `x ↦ M x − c` is exactly `M` for every
+    `delta ≠ 0` (`C18.jacobian_affine`), so the statement of `newton_affine_sys_supplied_gen`
+    holds with `jacF x = jacobian F x delta`; each Jacobian evaluates `F` `n + 1` times. -/
+theorem newton_affine_sys_fd_gen {R : Type} (M : Nat → Nat → K) (c : Nat → K) (n : Nat)
+    (hn : 1 ≤ n) (delta : K) (hd : delta ≠ 0)
+    (normInf : Array K → Res R) (leTol : R → Bool)
+    (hN : ∀ v : Array K, v.size = n → ∃ r, normInf v = .ok r)
+    (hN0 : ∀ r, normInf (Array.replicate n (0 : K)) = .ok r → leTol r = true)
+    (guess : Array K) (hg : guess.size = n)
+    (hsolve : ∀ J : Mat K, Mat.Is J n n M →
+      (∃ dx, Mat.solveBasic J (affineRes M c n guess) = .ok dx) ∧
+      (∃ dx, Mat.solveBasic J (Array.replicate n (0 : K)) = .ok dx))
+    (tr : List (Array K)) :
+    ∃ (xs : Array K) (r0 : R) (jtr0 jtr1 : List (Array K)),
+      IsRoot M c n xs ∧
+      normInf (affineRes M c n guess) = .ok r0 ∧
+      jtr0.length = n + 1 ∧ jtr1.length = n + 1 ∧
+      (∃ J0, jacobian (affineRes M c n) guess delta = .ok (J0, jtr0) ∧ Mat.Is J0 n n M) ∧
+      IsStep (affineRes M c n) (fun x => jacobian (affineRes M c n) x delta) normInf leTol
+        (leTol r0) guess xs ∧
+      affineRes M c n xs = Array.replicate n 0 ∧
+      (∃ J1, jacobian (affineRes M c n) xs delta = .ok (J1, jtr1) ∧ Mat.Is J1 n n M ∧
+        Mat.solveBasic J1 (affineRes M c n xs) = .ok (Array.replicate n 0)) ∧
+      IsStep (affineRes M c n) (fun x => jacobian (affineRes M c n) x delta) normInf leTol
+        true xs xs ∧
+      solveSys (affineRes M c n) (fun x => jacobian (affineRes M c n) x delta) normInf leTol 1
+          guess tr = .ok (⟨leTol r0, xs⟩, tr ++ [guess] ++ jtr0) ∧
+      ∀ maxIter, 2 ≤ maxIter →
+        solveSys (affineRes M c n) (fun x => jacobian (affineRes M c n) x delta) normInf leTol
+            maxIter guess tr
+          = .ok (⟨true, xs⟩, if leTol r0 then tr ++ [guess] ++ jtr0
+                              else tr ++ [guess] ++ jtr0 ++ [xs] ++ jtr1) := by
+  have hJ : ∀ x : Array K, x.size = n → ∃ J jtr,
+      (fun x => jacobian (affineRes M c n) x delta) x = .ok (J, jtr) ∧ Mat.Is J n n M := by
+    intro x hx
+    obtain ⟨J, jtr, h1, _, h3⟩ := C18.jacobian_affine M (fun i => -c i) n x delta hd
+    rw [hx] at h1 h3
+    exact ⟨J, jtr, h1, h3⟩
+  obtain ⟨xs, r0, jtr0, jtr1, h1, h2, ⟨J0, h3⟩, h4, h5, ⟨J1, h6, h6'⟩, h7, h8, h9⟩ :=
+    newton_affine_sys_supplied_gen M c n hn _ hJ normInf leTol hN hN0 guess hg hsolve tr
+  have l0 := jacobian_trace_length _ _ _ _ _ h3
+  have l1 := jacobian_trace_length _ _ _ _ _ h6
+  have i0 : Mat.Is J0 n n M := by
+    obtain ⟨J, jtr, e, hI⟩ := hJ guess hg
+    simp only at e
+    rw [h3] at e
+    cases e
+    exact hI
+  have i1 : Mat.Is J1 n n M := by
+    obtain ⟨J, jtr, e, hI⟩ := hJ xs h1.1
+    simp only at e
+    rw [h6] at e
+    cases e
+    exact hI
+  exact ⟨xs, r0, jtr0, jtr1, h1, h2, by rw [l0, hg], by rw [l1, h1.1], ⟨J0, h3, i0⟩, h4, h5,
+    ⟨J1, h6, i1, h6'⟩, h7, h8, h9⟩
+
+/-- **an exact root is a fixed point reported at once** (generic norm / tolerance test): for ANY
+    function `f` (no smoothness, no shape condition away from `x0`), if `f x0` is the zero vector
+    of length `n = |x0| ≥ 1`, the Jacobian call at `x0` returns a well-formed `n × n` matrix and
+    the linear solve returns, then the step is exactly zero and every run with `maxIter ≥ 1`
+    reports `Ok(x0)` in its first iteration (one evaluation of `f` + the Jacobian's). -/
+theorem newton_sys_fixed_point_gen {R : Type} (f : Array K → Array K)
+    (jacF : Array K → Res (Mat K × List (Array K)))
+    (normInf : Array K → Res R) (leTol : R → Bool) (n : Nat) (hn : 1 ≤ n)
+    (x0 : Array K) (hx : x0.size = n) (hroot : f x0 = Array.replicate n 0)
+    {J : Mat K} {jtr : List (Array K)} (hjac : jacF x0 = .ok (J, jtr)) (hJ : Mat.WFn J n)
+    (hsolve : ∃ dx, Mat.solveBasic J (f x0) = .ok dx)
+    {r0 : R} (hN : normInf (Array.replicate n (0 : K)) = .ok r0) (hle : leTol r0 = true)
+    (tr : List (Array K)) :
+    Mat.solveBasic J (f x0) = .ok (Array.replicate n 0) ∧
+    IsStep f jacF normInf leTol true x0 x0 ∧
+    ∀ maxIter, 1 ≤ maxIter →
+      solveSys f jacF normInf leTol maxIter x0 tr = .ok (⟨true, x0⟩, tr ++ [x0] ++ jtr) := by
+  obtain ⟨dx, hdx⟩ := hsolve
+  have hz : dx = Array.replicate n 0 := by
+    rw [hroot] at hdx
+    exact solveBasic_zero_rhs hn hJ.is hdx
+  subst hz
+  have hr : normInf (f x0) = .ok r0 := by rw [hroot]; exact hN
+  have hsub : Vec.sub x0 (Array.replicate n (0 : K)) = .ok x0 := vecSub_zero hx
+  refine ⟨hdx, ⟨r0, J, jtr, _, hr, hle, hjac, hdx, hsub⟩, ?_⟩
+  intro maxIter hm
+  obtain ⟨k, rfl⟩ : ∃ k, maxIter = k + 1 := ⟨maxIter - 1, by omega⟩
+  rw [sys_unfold _ _ _ _ k x0 tr hr hjac hdx hsub, hle]
+  rfl
+
+/-! ### the model's norm and tolerance test -/
+section Concrete
+variable [Transc K]
+
+/-- `norm_inf` is defined on every non-empty vector -/
+theorem normInf_total {v : Array K} (h : 1 ≤ v.size) : ∃ r, Vec.normInf v = .ok r := by
+  unfold Vec.normInf Vec.normInfBy
+  have : v[0]? = some v[0] := by simp [show 0 < v.size from h]
+  rw [this]
+  exact ⟨_, rfl⟩
+
+theorem foldl_zero (g : K → K) (h0 : g 0 = 0) (l : List K) (hl : ∀ x ∈ l, x = 0) :
+    l.foldl (fun r x => if ScalarExt.lt r (g x) then g x else r) 0 = 0 := by
+  induction l with
+  | nil => rfl
+  | cons a l ih =>
+    have ha : a = 0 := hl a (by simp)
+    subst ha
+    simp only [List.foldl_cons, h0, Alg.lt_eq, lt_self_iff_false, decide_false, Bool.false_eq_true,
+      if_false]
+    exact ih (fun x hx => hl x (by simp [hx]))
+
+/-- `norm_inf` of the zero vector is `0` (only `fabs 0 = 0` is used) -/
+theorem normInf_zero {n : Nat} (hn : 1 ≤ n) (habs0 : Transc.fabs (0 : K) = 0) :
+    Vec.normInf (Array.replicate n (0 : K)) = .ok 0 := by
+  unfold Vec.normInf Vec.normInfBy
+  have : (Array.replicate n (0 : K))[0]? = some 0 := by simp [show 0 < n from hn]
+  rw [this]
+  simp only [habs0]
+  congr 1
+  rw [← Array.foldl_toList]
+  apply foldl_zero _ habs0
+  intro x hx
+  simp at hx
+  exact hx.2
+
+/-- the two facts about the stopping test that the `_gen` theorems need, for the model's
+    `Vec.normInf` and `fun r => Transc.le r tol` -/
+theorem concrete_norm (hle : ∀ x y : K, Transc.le x y = decide (x ≤ y))
+    (habs0 : Transc.fabs (0 : K) = 0) (tol : K) (htol : 0 ≤ tol) (n : Nat) (hn : 1 ≤ n) :
+    (∀ v : Array K, v.size = n → ∃ r, Vec.normInf v = .ok r) ∧
+    (∀ r, Vec.normInf (Array.replicate n (0 : K)) = .ok r → Transc.le r tol = true) := by
+  refine ⟨fun v hv => normInf_total (by omega), ?_⟩
+  intro r hr
+  rw [normInf_zero hn habs0] at hr
+  cases hr
+  rw [hle]
+  simpa using htol
+
+/-- **Newton for systems on an affine map, supplied Jacobian: one exact step, then success.**
+    Over a linearly ordered field, with `<=` read as `≤` and `fabs 0 = 0`: let `F x = M x − c`
+    be an `n × n` affine system (`n ≥ 1`), let the supplied Jacobian return a well-formed matrix
+    with entries `M` at every point, let `0 ≤ tol` and suppose the two linear solves that occur
+    return (`hsolve`; implied by `det M ≠ 0` through completeness of `solve_basic`).  Then for
+    ANY guess of length `n`:
+    * the first step lands on an exact root `x*` (`M x* = c`);
+    * at `x*` the residual is the zero vector and the second step is exactly zero;
+    * with `maxIter = 1` the model returns `x*` flagged `Ok` iff `‖F guess‖∞ ≤ tol`
+      (`Err(x*)` otherwise — the test looks at the residual of the point the step started from);
+    * with every `maxIter ≥ 2` the model returns `Ok(x*)`, after at most two iterations. -/
+theorem newton_affine_sys_supplied
+    (hle : ∀ x y : K, Transc.le x y = decide (x ≤ y)) (habs0 : Transc.fabs (0 : K) = 0)
+    (M : Nat → Nat → K) (c : Nat → K) (n : Nat) (hn : 1 ≤ n)
+    (jacF : Array K → Res (Mat K × List (Array K)))
+    (hJ : ∀ x : Array K, x.size = n → ∃ J jtr, jacF x = .ok (J, jtr) ∧ Mat.Is J n n M)
+    (tol : K) (htol : 0 ≤ tol) (guess : Array K) (hg : guess.size = n)
+    (hsolve : ∀ J : Mat K, Mat.Is J n n M →
+      (∃ dx, Mat.solveBasic J (affineRes M c n guess) = .ok dx) ∧
+      (∃ dx, Mat.solveBasic J (Array.replicate n (0 : K)) = .ok dx)) :
+    ∃ (xs : Array K) (r0 : K) (jtr0 jtr1 : List (Array K)),
+      IsRoot M c n xs ∧
+      Vec.normInf (affineRes M c n guess) = .ok r0 ∧
+      (∃ J0, jacF guess = .ok (J0, jtr0)) ∧
+      IsStep (affineRes M c n) jacF Vec.normInf (fun r => Transc.le r tol) (decide (r0 ≤ tol))
+        guess xs ∧
+      affineRes M c n xs = Array.replicate n 0 ∧
+      (∃ J1, jacF xs = .ok (J1, jtr1) ∧
+        Mat.solveBasic J1 (affineRes M c n xs) = .ok (Array.replicate n 0)) ∧
+      IsStep (affineRes M c n) jacF Vec.normInf (fun r => Transc.le r tol) true xs xs ∧
+      solveSys (affineRes M c n) jacF Vec.normInf (fun r => Transc.le r tol) 1 guess []
+        = .ok (⟨decide (r0 ≤ tol), xs⟩, [guess] ++ jtr0) ∧
+      ∀ maxIter, 2 ≤ maxIter →
+        solveSys (affineRes M c n) jacF Vec.normInf (fun r => Transc.le r tol) maxIter guess []
+          = .ok (⟨true, xs⟩, if r0 ≤ tol then [guess] ++ jtr0
+                              else [guess] ++ jtr0 ++ [xs] ++ jtr1) := by
+  obtain ⟨hN, hN0⟩ := concrete_norm hle habs0 tol htol n hn
+  have := newton_affine_sys_supplied_gen M c n hn jacF hJ Vec.normInf (fun r => Transc.le r tol)
+    hN hN0 guess hg hsolve []
+  simpa only [hle, decide_eq_true_eq, List.nil_append] using this
+
+/-- **Newton for systems on an affine map, finite-difference Jacobian**: the same with
+    `Mat64::jacobian` (any `delta ≠ 0`: the forward difference of an affine map is exact over a
+    field); each iteration evaluates `F` `n + 2` times. -/
+theorem newton_affine_sys_fd
+    (hle : ∀ x y : K, Transc.le x y = decide (x ≤ y)) (habs0 : Transc.fabs (0 : K) = 0)
+    (M : Nat → Nat → K) (c : Nat → K) (n : Nat) (hn : 1 ≤ n) (delta : K) (hd : delta ≠ 0)
+    (tol : K) (htol : 0 ≤ tol) (guess : Array K) (hg : guess.size = n)
+    (hsolve : ∀ J : Mat K, Mat.Is J n n M →
+      (∃ dx, Mat.solveBasic J (affineRes M c n guess) = .ok dx) ∧
+      (∃ dx, Mat.solveBasic J (Array.replicate n (0 : K)) = .ok dx)) :
+    ∃ (xs : Array K) (r0 : K) (jtr0 jtr1 : List (Array K)),
+      IsRoot M c n xs ∧
+      Vec.normInf (affineRes M c n guess) = .ok r0 ∧
+      jtr0.length = n + 1 ∧ jtr1.length = n + 1 ∧
+      (∃ J0, jacobian (affineRes M c n) guess delta = .ok (J0, jtr0) ∧ Mat.Is J0 n n M) ∧
+      IsStep (affineRes M c n) (fun x => jacobian (affineRes M c n) x delta) Vec.normInf
+        (fun r => Transc.le r tol) (decide (r0 ≤ tol)) guess xs ∧
+      affineRes M c n xs = Array.replicate n 0 ∧
+      (∃ J1, jacobian (affineRes M c n) xs delta = .ok (J1, jtr1) ∧ Mat.Is J1 n n M ∧
+        Mat.solveBasic J1 (affineRes M c n xs) = .ok (Array.replicate n 0)) ∧
+      IsStep (affineRes M c n) (fun x => jacobian (affineRes M c n) x delta) Vec.normInf
+        (fun r => Transc.le r tol) true xs xs ∧
+      solveSys (affineRes M c n) (fun x => jacobian (affineRes M c n) x delta) Vec.normInf
+          (fun r => Transc.le r tol) 1 guess [] = .ok (⟨decide (r0 ≤ tol), xs⟩, [guess] ++ jtr0) ∧
+      ∀ maxIter, 2 ≤ maxIter →
+        solveSys (affineRes M c n) (fun x => jacobian (affineRes M c n) x delta) Vec.normInf
+            (fun r => Transc.le r tol) maxIter guess []
+          = .ok (⟨true, xs⟩, if r0 ≤ tol then [guess] ++ jtr0
+                              else [guess] ++ jtr0 ++ [xs] ++ jtr1) := by
+  obtain ⟨hN, hN0⟩ := concrete_norm hle habs0 tol htol n hn
+  have := newton_affine_sys_fd_gen M c n hn delta hd Vec.normInf (fun r => Transc.le r tol)
+    hN hN0 guess hg hsolve []
+  simpa only [hle, decide_eq_true_eq, List.nil_append] using this
+
+/-- **an exact root is reported at once**: for ANY `f`, if `f x0 = 0` (the zero vector of length
+    `n = |x0| ≥ 1`), the Jacobian call at `x0` returns a well-formed `n × n` matrix and the linear
+    solve returns, then the step is exactly zero and every run with `maxIter ≥ 1`, `tol ≥ 0`
+    reports `Ok(x0)` in its first iteration. -/
+theorem newton_sys_fixed_point
+    (hle : ∀ x y : K, Transc.le x y = decide (x ≤ y)) (habs0 : Transc.fabs (0 : K) = 0)
+    (f : Array K → Array K) (jacF : Array K → Res (Mat K × List (Array K)))
+    (tol : K) (htol : 0 ≤ tol) (n : Nat) (hn : 1 ≤ n)
+    (x0 : Array K) (hx : x0.size = n) (hroot : f x0 = Array.replicate n 0)
+    {J : Mat K} {jtr : List (Array K)} (hjac : jacF x0 = .ok (J, jtr)) (hJ : Mat.WFn J n)
+    (hsolve : ∃ dx, Mat.solveBasic J (f x0) = .ok dx) :
+    Mat.solveBasic J (f x0) = .ok (Array.replicate n 0) ∧
+    IsStep f jacF Vec.normInf (fun r => Transc.le r tol) true x0 x0 ∧
+    ∀ maxIter, 1 ≤ maxIter →
+      solveSys f jacF Vec.normInf (fun r => Transc.le r tol) maxIter x0 []
+        = .ok (⟨true, x0⟩, [x0] ++ jtr) := by
+  have hle0 : (fun r => Transc.le r tol) (0 : K) = true := by
+    simp only [hle]; simpa using htol
+  exact newton_sys_fixed_point_gen f jacF Vec.normInf (fun r => Transc.le r tol) n hn x0 hx hroot
+    hjac hJ hsolve (normInf_zero hn habs0) hle0 []
+
+/-- the same with the finite-difference Jacobian: `f` only has to return vectors of length `n`
+    on arguments of length `n`, and `delta ≠ 0`; the run evaluates `f` `n + 2` times. -/
+theorem newton_sys_fixed_point_fd
+    (hle : ∀ x y : K, Transc.le x y = decide (x ≤ y)) (habs0 : Transc.fabs (0 : K) = 0)
+    (f : Array K → Array K) (delta : K) (hd : delta ≠ 0)
+    (tol : K) (htol : 0 ≤ tol) (n : Nat) (hn : 1 ≤ n)
+    (hf : ∀ x : Array K, x.size = n → (f x).size = n)
+    (x0 : Array K) (hx : x0.size = n) (hroot : f x0 = Array.replicate n 0)
+    (hsolve : ∀ J jtr, jacobian f x0 delta = .ok (J, jtr) →
+      ∃ dx, Mat.solveBasic J (f x0) = .ok dx) :
+    ∃ J jtr, jacobian f x0 delta = .ok (J, jtr) ∧ jtr.length = n + 1 ∧
+      Mat.solveBasic J (f x0) = .ok (Array.replicate n 0) ∧
+      ∀ maxIter, 1 ≤ maxIter →
+        solveSys f (fun x => jacobian f x delta) Vec.normInf (fun r => Transc.le r tol) maxIter
+          x0 [] = .ok (⟨true, x0⟩, [x0] ++ jtr) := by
+  have hdiv : ∀ a : K, ∃ q, divM a delta = .ok q := fun a => ⟨a / delta, Alg.divM_ne hd⟩
+  obtain ⟨J, h1, h2, h3, h4, _⟩ := C18.jacobian_entries f x0 delta n
+    (fun x h => hf x (by rw [h, hx])) hdiv
+  have hJ : Mat.WFn J n := ⟨h4, h2, by rw [h3, hx]⟩
+  obtain ⟨a, _, c⟩ := newton_sys_fixed_point hle habs0 f (fun x => jacobian f x delta) tol htol n
+    hn x0 hx hroot h1 hJ (hsolve _ _ h1)
+  exact ⟨J, _, h1, by simp [hx], a, c⟩
+
+end Concrete
+
 end AffineSys
+
+section Examples
+attribute [local instance] Ohsl.Alg.scalarExt
+
+/-- ℚ with `le := decide (· ≤ ·)`, `fabs := |·|` (the other operations are irrelevant) -/
+@[reducible] def transcQ : Transc ℚ :=
+  { sqrt := id, sin := id, cos := id, tan := id, exp := id, ln := id, sinh := id, cosh := id,
+    fabs := fun x => |x|, atan2 := fun x _ => x, powf := fun x _ => x, fmax := max,
+    ofNat := fun n => (n : ℚ), le := fun x y => decide (x ≤ y), half := 1 / 2, piHalf := 0,
+    eps := 0, snap := 0 }
+
+/-- **non-vacuity**: the hypotheses of `newton_affine_sys_supplied` / `newton_affine_sys_fd` are
+    satisfiable — ℚ with `le := decide (· ≤ ·)`, `fabs := |·|`, the 2×2 system
+    `2x + y = 3, x + 3y = 5` (root `(4/5, 7/5)`), the constant supplied Jacobian, the guess
+    `(7, -4)`: both linear solves return for every matrix with these entries. -/
+example : ∃ (_ : Transc ℚ) (M : Nat → Nat → ℚ) (c : Nat → ℚ)
+    (jacF : Array ℚ → Res (Mat ℚ × List (Array ℚ))) (guess : Array ℚ),
+    (∀ x y : ℚ, Transc.le x y = decide (x ≤ y)) ∧ Transc.fabs (0 : ℚ) = 0 ∧ guess.size = 2 ∧
+    (∀ x : Array ℚ, x.size = 2 → ∃ J jtr, jacF x = .ok (J, jtr) ∧ Mat.Is J 2 2 M) ∧
+    (∀ J : Mat ℚ, Mat.Is J 2 2 M →
+      (∃ dx, Mat.solveBasic J (affineRes M c 2 guess) = .ok dx) ∧
+      (∃ dx, Mat.solveBasic J (Array.replicate 2 (0 : ℚ)) = .ok dx)) := by
+  refine ⟨transcQ, Mat.ent ⟨#[2, 1, 1, 3], 2, 2⟩, fun i => (#[3, 5] : Array ℚ)[i]?.getD 0,
+     fun _ => .ok (⟨#[2, 1, 1, 3], 2, 2⟩, []), #[7, -4], fun _ _ => rfl, abs_zero, rfl, ?_, ?_⟩
+  · intro x _
+    exact ⟨_, _, rfl, Mat.WFn.is ⟨rfl, rfl, rfl⟩⟩
+  · intro J hJ
+    have e : J = ⟨#[2, 1, 1, 3], 2, 2⟩ := Is_unique hJ (Mat.WFn.is ⟨rfl, rfl, rfl⟩)
+    subst e
+    have hF : affineRes (Mat.ent ⟨#[2, 1, 1, 3], 2, 2⟩) (fun i => (#[3, 5] : Array ℚ)[i]?.getD 0) 2
+        #[7, -4] = #[7, -10] := by
+      decide +kernel
+    rw [hF]
+    exact ⟨⟨#[31 / 5, -27 / 5], by decide +kernel⟩, ⟨#[0, 0], by decide +kernel⟩⟩
+
+/-- **non-vacuity** of `newton_sys_fixed_point`: the same system as a black-box `f`, started at
+    its exact root `(4/5, 7/5)`. -/
+example : ∃ (_ : Transc ℚ) (f : Array ℚ → Array ℚ)
+    (jacF : Array ℚ → Res (Mat ℚ × List (Array ℚ))) (x0 : Array ℚ) (J : Mat ℚ)
+    (jtr : List (Array ℚ)),
+    (∀ x y : ℚ, Transc.le x y = decide (x ≤ y)) ∧ Transc.fabs (0 : ℚ) = 0 ∧ x0.size = 2 ∧
+    f x0 = Array.replicate 2 0 ∧ jacF x0 = .ok (J, jtr) ∧ Mat.WFn J 2 ∧
+    ∃ dx, Mat.solveBasic J (f x0) = .ok dx :=
+  ⟨transcQ, fun x => #[2 * x.getD 0 0 + x.getD 1 0 - 3, x.getD 0 0 + 3 * x.getD 1 0 - 5],
+    fun _ => .ok (⟨#[2, 1, 1, 3], 2, 2⟩, []), #[4 / 5, 7 / 5], ⟨#[2, 1, 1, 3], 2, 2⟩, [],
+    fun _ _ => rfl, abs_zero, rfl, by decide +kernel, rfl, ⟨rfl, rfl, rfl⟩,
+    ⟨#[0, 0], by decide +kernel⟩⟩
+
+end Examples
 
 end Ohsl.Props.C17
